@@ -66,6 +66,15 @@ class C10(Prop):
                 ps = self._vec(rng, n1)
                 if rng.random() < 0.3:
                     qs = list(ps)
+                elif rng.random() < 0.25:
+                    # q vanishes on part of the support of p: the divergence is +inf
+                    qs = self._vec(rng, n1, allow_inf=False)
+                    mxp = max([v for v in ps if v != NEG_INF] or [0.0])
+                    fin = [i for i, v in enumerate(ps) if v != NEG_INF and v > mxp - 600]       # where P is a representable positive number
+                    if fin and len(qs) > 1:
+                        qs[rng.choice(fin)] = NEG_INF
+                        if all(v == NEG_INF for v in qs):
+                            qs[(fin[0] + 1) % len(qs)] = 0.0
                 else:
                     qs = self._vec(rng, n1, allow_inf=False)
                 yield {'kind': 'dkl', 'ps': ps, 'qs': qs, 'dV': 10 ** rng.uniform(-3, 3) if rng.random() < 0.5 else 1.0,
@@ -77,7 +86,7 @@ class C10(Prop):
                 for _ in range(nb):
                     b = rng.randint(1, 8)
                     batches.append(self._vec(rng, b))
-                yield {'kind': 'sample', 'batches': batches, 'extra_n': rng.choice([0, 5, 1000])}
+                yield {'kind': 'sample', 'batches': batches, 'extra_n': rng.choice([0, 5, 1000]), 'discard': rng.choice([0, 0, 7, 100, 10000])}
 
     # ------------------------------------------------------------------ implementation
     def impl(self, case):
@@ -119,8 +128,22 @@ class C10(Prop):
                 tot += len(b)
             N = tot + case['extra_n']
             out, _txt = s.output(normalise=True, convert=False, n_samples=N, discard=0)
-            return {'lnbe': float(out['ln_bayesian_evidence']) if 'ln_bayesian_evidence' in out else None,
-                    'dkl': float(out['dkl']) if 'dkl' in out else None, 'N': N}
+            res = {'lnbe': float(out['ln_bayesian_evidence']) if 'ln_bayesian_evidence' in out else None,
+                   'dkl': float(out['dkl']) if 'dkl' in out else None, 'N': N}
+            # the same history through a sampling algorithm's own output() (what an inversion reports), with a discard factor
+            from MTfit.algorithms import monte_carlo as mcs
+            alg = mcs.IterationSample(number_samples=5, max_samples=10 ** 9)
+            alg.initialise()
+            col = 0
+            for b in case['batches']:
+                mts = np.matrix(np.arange(col, col + len(b), dtype=float) * np.ones((6, 1)))
+                col += len(b)
+                alg.iterate({'moment_tensors': mts, 'ln_pdf': np.array([b]), 'n': len(b)})
+            ao, _t = alg.output(normalise=True, convert=False, discard=case.get('discard', 0))
+            res['alg_lnbe'] = float(ao['ln_bayesian_evidence']) if 'ln_bayesian_evidence' in ao else None
+            res['alg_dkl'] = float(ao['dkl']) if 'dkl' in ao else None
+            res['alg_N'] = tot
+            return res
         raise ValueError(k)
 
     # ------------------------------------------------------------------ model
@@ -222,6 +245,16 @@ class C10(Prop):
                 out.append(('dkl-self', 'dkl(p, p) = %r' % g, None))
             elif g < -1e-9:
                 out.append(('dkl-negative', 'dkl = %r < 0' % g, None))
+            else:
+                # reference: sum over the support of p of P (ln P - ln Q) dV with both normalised to unit integral
+                ps_, qs_, dV = case['ps'], case['qs'], case['dV']
+                lp, lq = lse(ps_) + math.log(dV), lse(qs_) + math.log(dV)
+                ref = 0.0
+                for a_, b_ in zip(ps_, qs_):
+                    if a_ != NEG_INF:
+                        ref = float('inf') if b_ == NEG_INF else ref + math.exp(a_ - lp) * ((a_ - lp) - (b_ - lq)) * dV
+                if not (g == ref or close(g, ref, atol=1e-8, rtol=1e-8)):
+                    out.append(('dkl-value', 'dkl = %r, sum over the support of p of P ln(P/Q) dV = %r' % (g, ref), None))
         elif k == 'sample':
             xs = [v for b in case['batches'] for v in b]
             ref = lse(xs) - math.log(impl['N'])
@@ -231,6 +264,17 @@ class C10(Prop):
             ref2 = entropy_form(xs, impl['N'])
             if impl['dkl'] is None or not close(ref2, impl['dkl'], atol=1e-9):
                 out.append(('sample-dkl', 'Sample.output dkl %r, ln N - H(w) = %r' % (impl['dkl'], ref2), None))
+            if any(v != NEG_INF for v in xs) and 'alg_N' in impl:
+                # the algorithm's own output: N is the number of tried samples; with a discard factor only samples below
+                # max/(discard N) are dropped, which changes the evidence by less than 1/discard
+                tol = 1e-9 if not case.get('discard') else 2.0 / case['discard']
+                ra = lse(xs) - math.log(impl['alg_N'])
+                if impl['alg_lnbe'] is None or not close(ra, impl['alg_lnbe'], atol=tol):
+                    out.append(('sample-lnbe', 'algorithm output (discard %r) reports evidence %r, log mean likelihood over the %d tried samples is %r' %
+                                (case.get('discard'), impl['alg_lnbe'], impl['alg_N'], ra), None))
+                rd = entropy_form(xs, impl['alg_N'])
+                if not case.get('discard') and (impl['alg_dkl'] is None or not close(rd, impl['alg_dkl'], atol=1e-9)):
+                    out.append(('sample-dkl', 'algorithm output reports dkl %r, ln N - H(w) = %r' % (impl['alg_dkl'], rd), None))
         return out
 
     def nontrivial(self, case, impl):
